@@ -74,8 +74,19 @@ where
         let (tx, mut rx) = futures::channel::mpsc::channel::<Payload<A>>(buffer);
         let tx2 = tx.clone();
 
+        let force_send: ForceChanTx<A> = Arc::new(move |event: Payload<A>| -> Result<()> {
+            let mut tx = tx.clone();
+            // THIS IS A BUG!
+            // Just calling this without checking for readiness will just queue this and ignore the bound
+            tx.start_send(event)?;
+            Ok(())
+        });
+
+        // whoever can still send must also keep the forcing sender alive
+        let keep_force_send = Arc::clone(&force_send);
         let send = Arc::new(
             move |event: Payload<A>| -> Pin<Box<dyn Future<Output = Result<()>> + Send>> {
+                let _ = &keep_force_send;
                 let tx = tx2.clone();
                 Box::pin(async move {
                     let mut tx = tx.clone();
@@ -84,14 +95,6 @@ where
                 })
             },
         );
-
-        let force_send = Arc::new(move |event: Payload<A>| -> Result<()> {
-            let mut tx = tx.clone();
-            // THIS IS A BUG!
-            // Just calling this without checking for readiness will just queue this and ignore the bound
-            tx.start_send(event)?;
-            Ok(())
-        });
 
         let recv: PayloadStream<A> = poll_fn(Box::new(move |ctx| {
             let pinned = pin!(&mut rx);
@@ -105,8 +108,18 @@ where
         let (tx, mut rx) = futures::channel::mpsc::unbounded::<Payload<A>>();
         let tx2 = tx.clone();
 
+        let force_send: ForceChanTx<A> = Arc::new(move |event: Payload<A>| -> Result<()> {
+            log::trace!("sending (unbounded {})", tx.len());
+            let mut tx = tx.clone();
+            tx.start_send(event)?;
+            Ok(())
+        });
+
+        // whoever can still send must also keep the forcing sender alive
+        let keep_force_send = Arc::clone(&force_send);
         let send = Arc::new(
             move |event: Payload<A>| -> Pin<Box<dyn Future<Output = Result<()>> + Send>> {
+                let _ = &keep_force_send;
                 let tx = tx2.clone();
                 Box::pin(async move {
                     let mut tx = tx.clone();
@@ -117,13 +130,6 @@ where
                 })
             },
         );
-
-        let force_send = Arc::new(move |event: Payload<A>| -> Result<()> {
-            log::trace!("sending (unbounded {})", tx.len());
-            let mut tx = tx.clone();
-            tx.start_send(event)?;
-            Ok(())
-        });
         let recv: PayloadStream<A> = poll_fn(Box::new(move |ctx| {
             let pinned = pin!(&mut rx);
             pinned.poll_next(ctx)
